@@ -317,4 +317,20 @@ theorem detachReceiver_drop {w : World} {p s : Nat} {c : Conn} (h : getC w p s =
     detachReceiver w p s = dropC w p s := by
   rw [detachReceiver_eq, h]; simp only; rw [if_neg (by simp [hr])]
 
+theorem detachSender_setP_comm (w : World) (p s a : Nat) (X : Pub) :
+    detachSender (setP w a X) p s = setP (detachSender w p s) a X := by
+  simp only [detachSender_eq, getC_setP]
+  cases getC w p s with
+  | none => rfl
+  | some c => simp only; split <;> rfl
+
+theorem setP_setP (w : World) (p : Nat) (X Y : Pub) : setP (setP w p X) p Y = setP w p Y := by
+  unfold setP
+  simp only [List.map_map]
+  congr 1
+  apply List.map_congr_left
+  intro e _
+  simp only [Function.comp]
+  by_cases h : e.1 = p <;> simp [h]
+
 end Iox2.PubSub.C01P
